@@ -165,8 +165,9 @@ class Result:
               "coverage": cov, "assumptions": self.assumptions, "wall_s": round(wall, 2),
               "violations": len(self.violations)}
         ev["coverage"]["known_findings_reproduced"] = [k["key"] for k in self.known]
-        os.makedirs(os.path.join(VERIF, "evidence"), exist_ok=True)
-        path = os.path.join(VERIF, "evidence", self.pid + ".json")
+        evdir = os.environ.get("VERIF_EVIDENCE_DIR") or os.path.join(VERIF, "evidence")
+        os.makedirs(evdir, exist_ok=True)
+        path = os.path.join(evdir, self.pid + ".json")
         tmp = path + ".tmp"
         with open(tmp, "w") as f:
             json.dump(ev, f, indent=1, sort_keys=True, default=str)
@@ -175,7 +176,7 @@ class Result:
         for k in self.known:
             print("KNOWN-FINDING: property=%s %s [%s]" % (self.pid, k["what"], k["key"]))
         if self.violations:
-            rdir = os.path.join(VERIF, "replay", self.pid)
+            rdir = os.path.join(os.environ.get("VERIF_REPLAY_DIR") or os.path.join(VERIF, "replay"), self.pid)
             os.makedirs(rdir, exist_ok=True)
             for i, v in enumerate(self.violations[:5]):
                 rp = os.path.join(rdir, "violation_%d.json" % i)
